@@ -1,4 +1,7 @@
 import BridgeVerif.Spec.JsonLog
+/-!
+# Numbers: `scanInt` undoes `intRepr`  (part of `JsonRoundTrip`)
+-/
 namespace Bridge
 
 /-- the digit character of `k < 10` -/
